@@ -55,7 +55,7 @@ def showTimer (w : World) (t : Timer) : String :=
 def showState (w : World) (nch nfib : Nat) : String :=
   let chans := (List.range nch).map fun c =>
     let ch := w.chans c
-    s!"|c{c} i={commaSep (ch.items.map toString)} r={commaSep (ch.readPending.map showPending)} w={commaSep (ch.writePending.map showPending)} X={if ch.closed then 1 else 0}"
+    s!"|c{c} i={commaSep (ch.items.map toString)} r={commaSep (ch.readPending.map showPending)} w={commaSep (ch.writePending.map showPending)} X={if ch.closed then 1 else 0} n={chanCount w c}/{if chanFull w c then 1 else 0}/{chanCapacity w c}"
   String.join chans ++ s!"|q={commaSep (w.runq.map showTask)}|t={commaSep (w.timers.map (showTimer w))}|s={commaSep ((List.range nfib).map fun f => toString (w.fibers f).sched)}"
 
 def showStatus (fb : Fiber) (err : Val) : String :=
